@@ -278,6 +278,33 @@ Family const &tree_family()
       cx.end();
       cx.expect_state(t, shape == 1 ? cat_vec({0}, cat_vec(iota(5, 10), {1})) : cat_vec({0, 1}, iota(5, 10)), "tree");
     }));
+    // assignment: 0 move from an unrelated tree, 1 move from the tree's own (middle) child - "replace a
+    // node by one of its sub-trees": the source is owned by the target -, 2 (copy from that child: an
+    // explicit copy of elements of the mutated tree, which the copy accounting of this family has no
+    // category for; C09 covers it) skipped, 3 copy from an unrelated lvalue tree (which stays as it
+    // was), 4 self move-assignment through an alias keeps everything
+    r.push_back(entry0("tree::operator=", 5, [](Ctx &cx, int shape) {
+      if (shape == 2) return;
+      tree_t t = make_tree(2);
+      tree_t other = make_tree(1, 10);
+      cx.arg_mutated(t, "tree");
+      if (shape == 0) cx.arg<rv>(other, "source");
+      if (shape == 3) cx.arg<lv>(other, "source");
+      cx.begin();
+      if (shape == 0) t = std::move(other);
+      else if (shape == 1) t = std::move(*std::next(t.begin()));
+      else if (shape == 3) t = other;
+      else
+      {
+        tree_t &alias = t;
+        t = std::move(alias);
+      }
+      cx.end();
+      cx.expect_state(t, shape == 0 || shape == 3 ? std::vector<int>{10, 11} : shape == 4 ? iota(5) : std::vector<int>{2, 3}, "tree");
+      for (tree_t const &child : t)
+        if (!child.parent().has_value() || &child.parent().get_unsafe().get() != &t)
+          fail(cx.key("parent"), cx.where() + "a child does not point at the assigned-to node");
+    }));
     // removal: pop_back / pop_front / release
     r.push_back(entry0("tree::pop_back/pop_front/release", 6, [](Ctx &cx, int shape) {
       int const op = shape % 3;
